@@ -804,11 +804,16 @@ impl Exec<'_> {
                 match find_file(&self.dir, &name) {
                     None => Obs::Fault { existed: false, old: None, new: None },
                     Some(p) => {
-                        let old = std::fs::read(&p).ok();
+                        // the file is header + payload: the fault changes the payload only
+                        let raw = std::fs::read(&p).unwrap_or_default();
+                        let off = crate::util::disk_cache_payload_offset(&raw);
+                        let old = Some(raw[off..].to_vec());
                         if matches!(op, Op::CorruptDisk(_)) {
                             let mut nb = b"CORRUPTED:".to_vec();
-                            nb.extend_from_slice(old.as_deref().unwrap_or(b""));
-                            std::fs::write(&p, &nb).expect("fault: overwrite disk file");
+                            nb.extend_from_slice(&raw[off..]);
+                            let mut file = raw[..off].to_vec();
+                            file.extend_from_slice(&nb);
+                            std::fs::write(&p, &file).expect("fault: overwrite disk file");
                             Obs::Fault { existed: true, old, new: Some(nb) }
                         } else {
                             std::fs::remove_file(&p).expect("fault: delete disk file");
